@@ -77,11 +77,19 @@ def run(ctx, scns, monitor):
             r.violation("crash:" + ck, "scenario %s (guard-page run)" % scn.sid, replay=sobj.text())
     run_monitored(ctx, plain, scns, guard_mon, tag="guard", cpu_limit=30, env_extra={"VH_GUARD_RX": "1"})
 
-    # 5. coverage-guided fuzzing (libFuzzer), seeded from the scenario corpus, bounded by runs
+    run_fuzz(ctx, nodse, int(os.environ.get("VERIF_FUZZ_RUNS", "400000")))
+    rep.need("msan_scenarios", rep.counters.get("msan_scenarios", 0), 1000)
+    rep.need("memcheck_scenarios", rep.counters.get("memcheck_scenarios", 0), 1000)
+    rep.need("guard_scenarios", rep.counters.get("guard_scenarios", 0), 1000)
+
+
+def run_fuzz(ctx, seeds, runs_per_job, jobs=16):
+    """coverage-guided fuzzing (libFuzzer, clang ASan+UBSan), seeded from the scenario corpus, bounded by runs"""
+    rep = ctx.report
     fdir = ctx.work.sub("fuzz")
     corpus = os.path.join(fdir, "corpus")
     os.makedirs(corpus, exist_ok=True)
-    for k, s in enumerate(nodse[:3000]):
+    for k, s in enumerate(seeds[:3000]):
         with open(os.path.join(corpus, "seed%05d" % k), "wb") as f:
             f.write(scenario_to_fuzz(s))
     fz = os.path.join(ctx.work.sub("bin"), "fuzz_target")
@@ -93,8 +101,7 @@ def run(ctx, scns, monitor):
         raise H.BuildError("fuzz target: " + r.stdout[-3000:])
     env = dict(os.environ)
     env["ASAN_OPTIONS"] = "quarantine_size_mb=8:detect_leaks=0"
-    runs_per_job = int(os.environ.get("VERIF_FUZZ_RUNS", "400000"))
-    p = subprocess.run([fz, corpus, "-runs=%d" % runs_per_job, "-max_len=8192", "-jobs=16", "-workers=16",
+    p = subprocess.run([fz, corpus, "-runs=%d" % runs_per_job, "-max_len=8192", "-jobs=%d" % jobs, "-workers=%d" % jobs,
                         "-artifact_prefix=" + fdir + "/", "-print_final_stats=1", "-timeout=20"],
                        cwd=fdir, stdout=subprocess.PIPE, stderr=subprocess.STDOUT, text=True, env=env, timeout=6 * 3600)
     execs = 0
@@ -117,8 +124,5 @@ def run(ctx, scns, monitor):
     rep.count("fuzz_executions", execs)
     rep.evaluations += execs
     rep.extra["fuzz_edge_coverage"] = cov
-    rep.need("fuzz_executions", execs, runs_per_job * 8)
-    rep.need("msan_scenarios", rep.counters.get("msan_scenarios", 0), 1000)
-    rep.need("memcheck_scenarios", rep.counters.get("memcheck_scenarios", 0), 1000)
-    rep.need("guard_scenarios", rep.counters.get("guard_scenarios", 0), 1000)
+    rep.need("fuzz_executions", execs, runs_per_job * jobs // 2)
     shutil.rmtree(fdir, ignore_errors=True)
